@@ -84,6 +84,22 @@ def mutants(items, rng, cap=40):
         if name in ("MLOAD", "SLOAD") and i + 1 < n and items[i + 1][0] in STORES and items[i + 1][0][0] == name[0]:
             # load then store -> store then load (operands shuffled so that each keeps its own)
             out.append((items[:i] + [("SWAP2", None), ("SWAP1", None), items[i + 1], items[i]] + items[i + 2:], "reorder-load-store:" + name))
+    # statement reorder: a hash of memory next to a memory store, operands duplicated from the stack (DUPa DUPb KECCAK256 leaves the
+    # hash on top, so the store's DUP indices move by one when the two statements are exchanged)
+    def dupk(it):
+        m = re.fullmatch(r"DUP(\d+)", it[0])
+        return int(m.group(1)) if m else None
+    for i in range(n - 5):
+        w = items[i:i + 6]
+        ks = [dupk(w[0]), dupk(w[1]), dupk(w[3]), dupk(w[4])]
+        if None in ks:
+            continue
+        if w[2][0] == "KECCAK256" and w[5][0] in ("MSTORE", "MSTORE8") and ks[2] >= 2 and ks[3] >= 3:
+            out.append((items[:i] + [("DUP%d" % (ks[2] - 1), None), ("DUP%d" % (ks[3] - 1), None), w[5], w[0], w[1], w[2]] + items[i + 6:],
+                        "reorder-hash-store:" + w[5][0]))
+        if w[5][0] == "KECCAK256" and w[2][0] in ("MSTORE", "MSTORE8") and ks[0] <= 15 and ks[1] <= 15:
+            out.append((items[:i] + [w[3], w[4], w[5], ("DUP%d" % (ks[0] + 1), None), ("DUP%d" % (ks[1] + 1), None), w[2]] + items[i + 6:],
+                        "reorder-store-hash:" + w[2][0]))
     # reorder two adjacent memory/storage statements: swap the i-th and j-th store opcode kinds where possible
     idx = [i for i, (nm, _) in enumerate(items) if nm in STORES or nm in ("MLOAD", "SLOAD", "KECCAK256")]
     for a, b in zip(idx, idx[1:]):
@@ -92,6 +108,8 @@ def mutants(items, rng, cap=40):
             mm[a], mm[b] = (items[b][0], items[a][1]), (items[a][0], items[b][1])
             out.append((mm, "swap-access-kinds"))
     rng.shuffle(out)
+    # the rare statement-level reorderings always survive the sampling
+    out.sort(key=lambda x: 0 if x[1].startswith("reorder-") else 1)
     return out[:cap]
 
 
@@ -142,14 +160,25 @@ def task_mutants(spec, summ):
             g = B.Gen(rw, {"pseudo": False})
             g.h = 6
             tail = []
-            kind = rw.choice(["ss", "ss", "ls"])
+            kind = rw.choice(["ss", "ss", "ls", "hs", "hs"])
+            if kind == "hs":
+                # hash of memory and a memory store side by side, in either order, operands duplicated from the stack
+                a, b2 = rw.randrange(1, 7), rw.randrange(1, 7)
+                stn = rw.choice(["MSTORE", "MSTORE", "MSTORE8"])
+                if rw.random() < 0.5:
+                    tail = [("DUP%d" % a, None), ("DUP%d" % b2, None), ("KECCAK256", None), ("DUP%d" % rw.randrange(2, 8), None), ("DUP%d" % rw.randrange(3, 9), None), (stn, None)]
+                else:
+                    tail = [("DUP%d" % a, None), ("DUP%d" % b2, None), (stn, None), ("DUP%d" % rw.randrange(1, 7), None), ("DUP%d" % rw.randrange(1, 7), None), ("KECCAK256", None)]
+                base = [it for it in base if it[0] not in AJ.END_SET] + tail
+                kind = None
             st1, st2 = rw.choice(["MSTORE", "MSTORE8", "SSTORE"]), rw.choice(["MSTORE", "SSTORE", "MSTORE8"])
-            for _ in range(4 if kind == "ss" else 3):
+            for _ in range(0 if kind is None else 4 if kind == "ss" else 3):
                 g.items = []
                 g.compile(g.leaf(6) if rw.random() < 0.7 else g.addr_tree(6))
                 tail += g.items
-            tail += [(st1, None), (st2, None)] if kind == "ss" else [("MLOAD" if st1[0] == "M" else "SLOAD", None), ("SWAP2", None), ("SWAP1", None), (st1, None)]
-            base = [it for it in base if it[0] not in AJ.END_SET] + tail
+            if kind is not None:
+                tail += [(st1, None), (st2, None)] if kind == "ss" else [("MLOAD" if st1[0] == "M" else "SLOAD", None), ("SWAP2", None), ("SWAP1", None), (st1, None)]
+                base = [it for it in base if it[0] not in AJ.END_SET] + tail
         if not legal(base, 16):
             continue
         need0 = evm.stack_need_and_delta(base)[0]
